@@ -27,4 +27,9 @@ PROPS = {
             "level_text": "Bounded symbolic execution + SMT: angle and axis are free reals, sin/cos/sqrt enter only through sound axioms, so every discharged goal holds for all angles and all non-zero axes. No loop or value bound.",
             "level_note": "Exact-real semantics; trig atoms axiomatised (Pythagoras, congruence, angle sum, double angle, values at 0). Trusted: rustc, the symbolic scalar, z3.",
             "bounds": {"types": ["Mat2", "Mat3", "Mat4", "Quaternion", "Vec2"], "layouts": 2}, "assumptions": COMMON_S},
+    "C08": {"engines": "S",
+            "technique": "symbolic execution of the 21 real projection constructors at an exact-real scalar (planes free, tan(fov/2)=sin/cos atoms); the eight view-volume corners, w>0, perspective=frustum and lh=rh*zmirror as fraction-lifted rational identities decided by z3 (QF_NRA); debug_assert paths shown infeasible under the documented preconditions",
+            "level_text": "Bounded symbolic execution + SMT: plane values / fov / aspect / near / far are free reals under the stated preconditions; each corner goal is a rational-function identity proved for all of them, each divisor is proved non-zero, each assertion-failure path is proved unreachable. No loop or value bound.",
+            "level_note": "Exact-real semantics. Infinite variants: goal is the exact identity depth(d) = (1-eps) - (2-eps) n/d for every d>0. Trusted: rustc, the symbolic scalar, z3.",
+            "bounds": {"constructors": 21, "layouts": 2, "preconditions": "l!=r, b!=t, n!=f (ortho); additionally 0<n, 0<f for frustum; 0<fov<PI, aspect>0 (width,height>0), 0<n<f for perspective"}, "assumptions": COMMON_S},
 }
